@@ -8,6 +8,7 @@ a real clock or an unseeded PRNG.
 import collections
 import hashlib
 import random
+import sys
 import threading
 
 # --------------------------------------------------------------------------
@@ -99,6 +100,8 @@ class SimThread:
         _tls.simthread = self
         try:
             if not self.dead:
+                if self.sim.preempt:
+                    sys.settrace(self._trace_calls)
                 self.result = self.fn()
         except ThreadKilled:
             pass
@@ -107,6 +110,41 @@ class SimThread:
         finally:
             self.done = True
             self.sim._main_sem.release()
+
+    # -- line-level pre-emption (sim.preempt): a controlled thread may lose the processor between two lines of the
+    #    files named there; which lines is a chooser decision, so a run replays exactly
+    def _trace_calls(self, frame, event, _arg):
+        cfg = self.sim.preempt
+        if cfg and event == 'call' and frame.f_code.co_filename.endswith(cfg['files']) and frame.f_code.co_name not in cfg.get('skip', ('_import',)):
+            # not inside the callbacks of a life-cycle trigger: the state has flipped by then and what is left (redrawing
+            # the state picture ...) belongs to no step the properties speak of
+            f = frame.f_back
+            while f is not None:
+                if '/transitions/' in f.f_code.co_filename:
+                    return None
+                f = f.f_back
+            return self._trace_lines
+        return None
+
+    def _trace_lines(self, frame, event, _arg):
+        if event != 'line':
+            return self._trace_lines
+        sim = self.sim
+        cfg = sim.preempt
+        if not cfg or self.preempted >= cfg['max'] or sim.in_harness:
+            return self._trace_lines
+        import linecache
+
+        text = linecache.getline(frame.f_code.co_filename, frame.f_lineno).strip()
+        if text in ('return', 'pass', 'continue', 'break'):
+            return self._trace_lines  # nothing of the step is left to do after such a line: not a point of interest
+        if sim.ch.flip('sched.preempt', *cfg['rate']):
+            self.preempted += 1
+            sim.count('sched.preempted_at_line')
+            self.park(label=f'preempt:{frame.f_code.co_name}:{frame.f_lineno}')
+        return self._trace_lines
+
+    preempted = 0
 
     # called from inside the thread
     def park(self, pred=None, until=None, label=''):
@@ -504,6 +542,8 @@ class Sim:
         self.steps = 0
         self.timers = []
         self.fromthread = collections.deque()
+        self.preempt = None  # dict(files=(suffixes,), rate=(num, den), max=per thread): line-level pre-emption of controlled threads
+        self.in_harness = False
         self.cb_delays = None  # fault 'slow reactor': virtual delays a thread->reactor callback may wait (FIFO kept)
         self._cb_ready = 0.0
         self._soon = collections.deque()
